@@ -708,6 +708,7 @@ func runCrash(u Univ, cfg Config, cp crashProfile, seed uint64, steps int, path 
 				c.disabled = false
 				nv := g.nv
 				g = NewGen(r, prof, seed+uint64(i))
+				g.unknownHistory()
 				g.nv = nv
 				unacked, winLen = 0, 0
 			default:
@@ -834,6 +835,9 @@ func crashConfigs() map[string]Config {
 		AutoCompact: true, ValueSep: true, ValSizes: []int{0, 40, 0, 600, 3, 5000}, ManifestSize: 500})
 	add(Config{Name: "crashold", FMV: pebble.FormatMinSupported, MemTableSize: 64 << 10, L0Threshold: 2, SmallFiles: true,
 		AutoCompact: true, ValSizes: []int{0, 0, 500, 9000}, ManifestSize: 300})
+	// values longer than a 32 KiB WAL block: every such record has queued full blocks besides its tail
+	add(Config{Name: "crashbig", FMV: pebble.FormatNewest, MemTableSize: 1 << 20, L0Threshold: 2, SmallFiles: true,
+		AutoCompact: true, ValSizes: []int{0, 40000, 0, 70000, 300, 33000}, ManifestSize: 600})
 	add(Config{Name: "crashnowal", FMV: pebble.FormatNewest, DisableWAL: true, MemTableSize: 64 << 10, L0Threshold: 4,
 		SmallFiles: true, AutoCompact: false, ValSizes: []int{0, 0, 500, 9000}, ManifestSize: 300})
 	add(Config{Name: "crashnowalauto", FMV: pebble.FormatNewest, DisableWAL: true, MemTableSize: 64 << 10, L0Threshold: 2,
